@@ -104,6 +104,15 @@ theorem c18_tool_prompts_agree_with_evaluated_source :
     Gen.threadTable.map (·.2) = promptsSeen.map some ∧ promptsSeen = [[], [0], [1], [2]] := by
   decide +kernel
 
+/-- The swarm's regeneration bookkeeping: on the code under test (fresh swarm and second call on a used one) worker
+    `i` of a never-succeeding call was given exactly the summarizer's answer for worker `i − 1` (the first none),
+    and the call added 4 apoptosis events, 3 regeneration events and 4 workers — as the model does
+    (`c18_swarm_events_and_hints`). -/
+theorem c18_swarm_hints_agree_with_evaluated_source :
+    Gen.hintTable.map (·.2) = hintsSeen.1.map some ∧ Gen.swarmBookkeeping = some hintsSeen.2 ∧
+    hintsSeen = ([[], [0], [1], [2]], (4, 3, 4)) := by
+  decide +kernel
+
 end Evaluated
 
 end Operon.Loops
